@@ -43,7 +43,7 @@ var reValueObl = regexp.MustCompile(`/(value|evaluates|operand-type|size-nonneg)
 // the obligations of C15 among the template value obligations: the places
 // where static types select a specialised instruction
 var reC15Tmpl = regexp.MustCompile(`^tmpl:(BinaryNode\[==\]|IdentifierNode)`)
-var reC15Also = regexp.MustCompile(`^tmpl:IntegerNode`)
+var reC15Also = regexp.MustCompile(`^tmpl:(IntegerNode|BinaryNode\[!=\])`)
 
 func templateObls(w *World, keep func(name string) bool) ([]*Obligation, []string) {
 	obls, notes := genTemplates(w)
